@@ -8,7 +8,8 @@
 (* than max-udp-size - 28 is sliced beyond the capacity: panic);             *)
 (* Src4Panics = TRUE: a 4-octet source address is indexed as [12:16].        *)
 EXTENDS Octets, TLC, Json
-CONSTANTS MaxUDP, Cap, Src4Panics, SrcPort, DstPort, Dst, EmitCases
+CONSTANTS MaxUDP, Cap, Src4Panics, SrcPort, DstPort, Dst, EmitCases,
+          Lens      \* the payload lengths explored: 0..MaxUDP, or (MaxUDP = 65535) the boundary lengths of MirrorMC
 
 IPv4Hdr(src4, dst4, total) == <<69, 0>> \o U16(total) \o <<0, 0, 0, 0, 64, 17, 0, 0>> \o src4 \o dst4
 UDPHdr(sp, dp, len) == U16(sp) \o U16(dp) \o U16(len) \o <<0, 0>>
@@ -24,7 +25,7 @@ Mirror(form, n) ==
 
 VARIABLES n, form
 vars == <<n, form>>
-Init == n \in 0..MaxUDP /\ form \in {4, 16}
+Init == n \in Lens /\ form \in {4, 16}
 Next == UNCHANGED vars
 Spec == Init /\ [][Next]_vars
 M == Mirror(form, n)
